@@ -1,4 +1,5 @@
-(* Marshal/Proofs.v — unmarshal ∘ marshal = id, injectivity of marshal. *)
+(* Marshal/Proofs.v — unmarshal ∘ marshal = id (any nesting depth, any
+   budget that is unlimited or large enough), injectivity of marshal. *)
 From Coq Require Import ZArith List Bool Lia ZifyBool.
 From GV Require Import Marshal.Model.
 Import ListNotations.
@@ -27,3 +28,522 @@ Proof.
     replace (Z.of_nat (S (length a)) - 1) with (Z.of_nat (length a)) by lia.
     now rewrite IH.
 Qed.
+
+Lemma readfull_app a rest n : n = zlen a -> readfull (a ++ rest) n = inl (a, rest).
+Proof. intros ->. unfold readfull. now rewrite take_app. Qed.
+
+Lemma take_pad_app a rest : take_pad (a ++ rest) (length a) = (a, rest).
+Proof. induction a as [|x a IH]; simpl; [destruct rest; reflexivity|now rewrite IH]. Qed.
+
+Lemma signed_unsigned bits v :
+  0 < bits -> - 2 ^ (bits - 1) <= v < 2 ^ (bits - 1) -> signed bits (v mod 2 ^ bits) = v.
+Proof.
+  intros Hb Hv. unfold signed.
+  assert (E : 2 ^ bits = 2 * 2 ^ (bits - 1)).
+  { replace bits with (Z.succ (bits - 1)) at 1 by lia. rewrite Z.pow_succ_r; lia. }
+  assert (0 < 2 ^ (bits - 1)) by (apply Z.pow_pos_nonneg; lia).
+  destruct (Z_lt_dec v 0).
+  - replace (v mod 2 ^ bits) with (v + 2 ^ bits).
+    2:{ apply Z.mod_unique with (q := -1); lia. }
+    destruct (v + 2 ^ bits <? 2 ^ (bits - 1)) eqn:C; lia.
+  - rewrite Z.mod_small by lia.
+    destruct (v <? 2 ^ (bits - 1)) eqn:C; lia.
+Qed.
+
+(* ------------------------------------------------------------------ *)
+(* budget                                                               *)
+
+Definition after (b n : Z) : Z := if b =? 0 then 0 else b - n.
+Definition enough (b n : Z) : Prop := b = 0 \/ n < b.
+
+Lemma consume_ok b n : enough b n -> consume b n = Some (after b n).
+Proof.
+  unfold enough, consume, after. intros [->|H]; [reflexivity|].
+  destruct (b =? 0) eqn:E; [reflexivity|]. destruct (b <? n) eqn:F; [lia|reflexivity].
+Qed.
+
+Lemma after_after b n m : enough b (n + m) -> 0 <= m -> after (after b n) m = after b (n + m).
+Proof.
+  unfold enough, after. intros [->|H] Hm; [reflexivity|].
+  destruct (b =? 0) eqn:E; [reflexivity|]. destruct (b - n =? 0) eqn:F; lia.
+Qed.
+
+Lemma enough_after b n m : enough b (n + m) -> 0 <= n -> 0 <= m -> enough (after b n) m.
+Proof.
+  unfold enough, after. intros [->|H] Hn Hm; [left; reflexivity|].
+  destruct (b =? 0) eqn:E; [left; reflexivity|right; lia].
+Qed.
+
+Lemma enough_le b n m : enough b m -> n <= m -> enough b n.
+Proof. unfold enough. intros [->|H] L; [left; reflexivity|right; lia]. Qed.
+
+Lemma after_0 b : after b 0 = b.
+Proof. unfold after. destruct (b =? 0) eqn:E; lia. Qed.
+
+(* ------------------------------------------------------------------ *)
+(* single fields                                                        *)
+
+Lemma rd_fixed_enc n v rest b :
+  enough b (Z.of_nat n) ->
+  rd_fixed (Z.of_nat n) (le_enc n v ++ rest) b = UOk (v mod 256 ^ Z.of_nat n) rest (after b (Z.of_nat n)).
+Proof.
+  intros H. unfold rd_fixed. rewrite consume_ok by exact H.
+  rewrite readfull_app by (unfold zlen; now rewrite le_enc_length).
+  now rewrite le_dec_enc.
+Qed.
+
+Lemma rd_raw_enc n v rest b :
+  rd_raw (Z.of_nat n) (le_enc n v ++ rest) b = UOk (v mod 256 ^ Z.of_nat n) rest b.
+Proof.
+  unfold rd_raw. rewrite readfull_app by (unfold zlen; now rewrite le_enc_length).
+  now rewrite le_dec_enc.
+Qed.
+
+Lemma rd_raw8_enc v rest b : rd_raw 8 (le_enc 8 v ++ rest) b = UOk (v mod 256 ^ Z.of_nat 8) rest b.
+Proof. exact (rd_raw_enc 8 v rest b). Qed.
+Lemma rd_raw2_enc v rest b : rd_raw 2 (le_enc 2 v ++ rest) b = UOk (v mod 256 ^ Z.of_nat 2) rest b.
+Proof. exact (rd_raw_enc 2 v rest b). Qed.
+
+Definition two63 := 9223372036854775808.
+
+Lemma mk_ok lim n elt : 0 <= n -> 0 <= elt -> n * elt <= lim -> lim <= maxAlloc -> mk lim n elt = MkOk.
+Proof.
+  intros. unfold mk.
+  destruct (n <? 0) eqn:A; [lia|]. destruct (maxAlloc <? n * elt) eqn:B; [lia|].
+  destruct (lim <? n * elt) eqn:C; [lia|]. reflexivity.
+Qed.
+
+Lemma maxAlloc_lt : maxAlloc < two63.
+Proof. reflexivity. Qed.
+
+Lemma len64 n : 0 <= n < two63 -> signed 64 (n mod 256 ^ Z.of_nat 8) = n.
+Proof.
+  intros H. change (256 ^ Z.of_nat 8) with (2 ^ 64). apply signed_unsigned; [lia|].
+  change (2 ^ (64 - 1)) with two63. lia.
+Qed.
+
+Section RoundTrip.
+Variable lim : Z.
+Hypothesis lim_ok : 0 <= lim <= maxAlloc.
+
+Lemma zlen_nonneg {A} (l : list A) : 0 <= zlen l.
+Proof. unfold zlen. lia. Qed.
+
+Lemma rd_str_enc s rest b :
+  zlen s <= lim -> enough b (8 + zlen s) ->
+  rd_str lim (wstr s ++ rest) b = UOk s rest (after b (8 + zlen s)).
+Proof.
+  intros Hl Hb. pose proof (zlen_nonneg s) as Hn. pose proof maxAlloc_lt.
+  unfold rd_str, wstr. rewrite <- app_assoc.
+  change 8 with (Z.of_nat 8) at 1.
+  rewrite rd_fixed_enc by (eapply enough_le; [exact Hb|change (Z.of_nat 8) with 8; lia]).
+  rewrite len64 by lia. change (Z.of_nat 8) with 8.
+  unfold u64. rewrite Z.mod_small by (unfold two64; unfold two63 in *; lia).
+  rewrite consume_ok by (apply enough_after; [exact Hb|lia|lia]).
+  rewrite after_after by (auto; lia).
+  rewrite mk_ok by lia.
+  destruct (zlen s =? 0) eqn:E.
+  - destruct s; [reflexivity|unfold zlen in E; cbn [length] in E; lia].
+  - destruct s as [|x s]; [unfold zlen in E; cbn in E; lia|].
+    cbn [app]. unfold zlen. rewrite Nat2Z.id.
+    change (x :: s ++ rest) with ((x :: s) ++ rest). now rewrite take_pad_app.
+Qed.
+
+(* ------------------------------------------------------------------ *)
+(* arrays of fixed-width words                                          *)
+
+Lemma chunks4_cons v r : chunks4 (le_enc 4 v ++ r) = le_dec (le_enc 4 v) :: chunks4 r.
+Proof. reflexivity. Qed.
+
+Lemma chunks4_enc (l : list Z) :
+  chunks4 (flat_map (le_enc 4) l) = map (fun v => v mod 2 ^ 32) l.
+Proof.
+  induction l as [|v l IH]; [reflexivity|].
+  cbn [flat_map map]. rewrite chunks4_cons, IH, le_dec_enc. reflexivity.
+Qed.
+
+Lemma flat_map_len4 (l : list Z) : zlen (flat_map (le_enc 4) l) = 4 * zlen l.
+Proof.
+  unfold zlen. induction l as [|v l IH]; [reflexivity|].
+  cbn [flat_map]. rewrite app_length, le_enc_length. cbn [length]. lia.
+Qed.
+
+Definition u32_ok (v : Z) := 0 <= v < 2 ^ 32.
+Definition i32_ok (v : Z) := - 2 ^ 31 <= v < 2 ^ 31.
+Definition i16_ok (v : Z) := - 2 ^ 15 <= v < 2 ^ 15.
+
+Lemma map_mod_u32 l : Forall u32_ok l -> map (fun v => v mod 2 ^ 32) l = l.
+Proof.
+  induction 1 as [|v l Hv _ IH]; [reflexivity|]. cbn [map]. rewrite IH. f_equal.
+  apply Z.mod_small. exact Hv.
+Qed.
+
+Lemma map_signed_i32 l : Forall i32_ok l -> map (signed 32) (map (fun v => v mod 2 ^ 32) l) = l.
+Proof.
+  induction 1 as [|v l Hv _ IH]; [reflexivity|]. cbn [map]. rewrite IH. f_equal.
+  apply signed_unsigned; [lia|]. exact Hv.
+Qed.
+
+(* ------------------------------------------------------------------ *)
+(* sequences                                                            *)
+
+Fixpoint sumz {A} (f : A -> Z) (l : list A) : Z :=
+  match l with [] => 0 | a :: r => f a + sumz f r end.
+
+Lemma sumz_nonneg {A} (f : A -> Z) l : (forall a, In a l -> 0 <= f a) -> 0 <= sumz f l.
+Proof.
+  induction l as [|a l IH]; cbn [sumz]; intros H; [lia|].
+  assert (0 <= f a) by (apply H; now left).
+  assert (0 <= sumz f l) by (apply IH; intros; apply H; now right). lia.
+Qed.
+
+Lemma rd_many_enc {A} (rd : bytes -> Z -> ures A) (enc : A -> bytes) (cost : A -> Z) (l : list A) :
+  (forall a, In a l -> 0 <= cost a /\
+     forall rest b, enough b (cost a) -> rd (enc a ++ rest) b = UOk a rest (after b (cost a))) ->
+  forall rest b, enough b (sumz cost l) ->
+  rd_many rd (length l) (flat_map enc l ++ rest) b = UOk l rest (after b (sumz cost l)).
+Proof.
+  induction l as [|a l IH]; intros H rest b Hb.
+  - cbn. now rewrite after_0.
+  - cbn [length flat_map rd_many sumz] in *.
+    destruct (H a (or_introl eq_refl)) as [Ha Hrd].
+    assert (Hs : 0 <= sumz cost l) by (apply sumz_nonneg; intros x Hx; apply H; now right).
+    rewrite <- app_assoc. rewrite Hrd by (eapply enough_le; [exact Hb|lia]).
+    rewrite IH; [|intros x Hx; apply H; now right|apply enough_after; [exact Hb|lia|lia]].
+    rewrite after_after by (auto; lia). reflexivity.
+Qed.
+
+(* ------------------------------------------------------------------ *)
+(* well-formed constants: what a Go value of these types can hold, and   *)
+(* every slice small enough for one allocation of lim bytes              *)
+
+Definition byte_ok (v : Z) := 0 <= v < 256.
+
+Record wf_head (h : chead) : Prop := {
+  wf_src : zlen (source h) <= lim;
+  wf_name : zlen (name h) <= lim;
+  wf_ops : Forall u32_ok (ops h);
+  wf_nops : zlen (ops h) * SZ_OP <= lim;
+  wf_lines : Forall i32_ok (lines h);
+  wf_nlines : zlen (lines h) * SZ_LINE <= lim;
+  wf_uc : i16_ok (upvalueCount h);
+  wf_rc : i16_ok (regCount h);
+  wf_cc : i16_ok (cellCount h);
+  wf_ups : Forall (fun s => zlen s <= lim) (upnames h);
+  wf_nups : zlen (upnames h) * SZ_STRING <= lim }.
+
+Fixpoint wf (k : cst) : Prop :=
+  match k with
+  | KInt z => - two63 <= z < two63
+  | KFlt b => 0 <= b < two64
+  | KStr s => zlen s <= lim
+  | KCode h ks =>
+      wf_head h /\ zlen ks * SZ_VALUE <= lim /\
+      (fix all (l : list cst) : Prop := match l with [] => True | k :: r => wf k /\ all r end) ks
+  end.
+
+Lemma wf_all ks :
+  (fix all (l : list cst) : Prop := match l with [] => True | k :: r => wf k /\ all r end) ks <->
+  (forall k, In k ks -> wf k).
+Proof.
+  induction ks as [|k ks IH]; cbn [In]; [tauto|].
+  rewrite IH. split.
+  - intros [H1 H2] x [<-|Hx]; auto.
+  - intros H. split; [apply H; now left|intros x Hx; apply H; now right].
+Qed.
+
+(* induction principle for the nested type *)
+Section CstInd.
+  Variable P : cst -> Prop.
+  Hypothesis HI : forall z, P (KInt z).
+  Hypothesis HF : forall b, P (KFlt b).
+  Hypothesis HS : forall s, P (KStr s).
+  Hypothesis HC : forall h ks, (forall k, In k ks -> P k) -> P (KCode h ks).
+  Fixpoint cst_ind' (k : cst) : P k :=
+    match k with
+    | KInt z => HI z
+    | KFlt b => HF b
+    | KStr s => HS s
+    | KCode h ks =>
+        HC h ks ((fix go (l : list cst) : forall k, In k l -> P k :=
+                    match l with
+                    | [] => fun k (H : In k []) => match H with end
+                    | x :: r => fun k (H : In k (x :: r)) =>
+                        match H with
+                        | or_introl E => eq_rect x P (cst_ind' x) k E
+                        | or_intror H' => go r k H'
+                        end
+                    end) ks)
+    end.
+End CstInd.
+
+(* nesting depth: the fuel rd_cst needs *)
+Fixpoint depth (k : cst) : nat :=
+  match k with
+  | KCode _ ks => S (fold_right (fun k n => Nat.max (depth k) n) O ks)
+  | _ => 1%nat
+  end.
+
+Lemma depth_in k ks : In k ks -> (depth k <= fold_right (fun k n => Nat.max (depth k) n) O ks)%nat.
+Proof.
+  induction ks as [|x ks IH]; cbn [In fold_right]; [tauto|].
+  intros [->|H]; [lia|]. specialize (IH H). lia.
+Qed.
+
+Definition cost (k : cst) : Z := zlen (marshal_cst k).
+
+Lemma wstr_len s : zlen (wstr s) = 8 + zlen s.
+Proof. unfold wstr, zlen. rewrite app_length, le_enc_length. lia. Qed.
+
+Lemma zlen_app {A} (a b : list A) : zlen (a ++ b) = zlen a + zlen b.
+Proof. unfold zlen. rewrite app_length. lia. Qed.
+
+Lemma zlen_cons {A} (x : A) l : zlen (x :: l) = 1 + zlen l.
+Proof. unfold zlen. cbn [length]. lia. Qed.
+
+Lemma zlen_enc n v : zlen (le_enc n v) = Z.of_nat n.
+Proof. unfold zlen. now rewrite le_enc_length. Qed.
+
+Lemma zlen_flat_map {A} (f : A -> bytes) l : zlen (flat_map f l) = sumz (fun a => zlen (f a)) l.
+Proof.
+  induction l as [|a l IH]; [reflexivity|]. cbn [flat_map sumz]. now rewrite zlen_app, IH.
+Qed.
+
+Lemma rd_strs_enc ups rest b :
+  Forall (fun s => zlen s <= lim) ups ->
+  enough b (zlen (flat_map wstr ups)) ->
+  rd_many (rd_str lim) (length ups) (flat_map wstr ups ++ rest) b
+  = UOk ups rest (after b (zlen (flat_map wstr ups))).
+Proof.
+  intros Hu Hb. rewrite zlen_flat_map in *.
+  apply rd_many_enc with (cost := fun s => zlen (wstr s)); [|exact Hb].
+  intros s Hs. split; [apply zlen_nonneg|].
+  intros r b' Hb'. rewrite wstr_len in *. apply rd_str_enc; [|exact Hb'].
+  rewrite Forall_forall in Hu. now apply Hu.
+Qed.
+
+Ltac bud Hb :=
+  first [ eapply enough_le; [exact Hb|lia]
+        | apply enough_after; [eapply enough_le; [exact Hb|lia]|lia|lia] ].
+
+Theorem rd_cst_marshal : forall k fuel rest b,
+  wf k -> (depth k <= fuel)%nat -> enough b (cost k) ->
+  rd_cst lim fuel (marshal_cst k ++ rest) b = UOk k rest (after b (cost k)).
+Proof.
+  induction k as [z|bits|s|h ks IH] using cst_ind'; intros fuel rest b Hwf Hfuel Hb;
+    (destruct fuel as [|f]; [cbn [depth] in Hfuel; lia|]); unfold cost in *.
+  - (* KInt *)
+    cbn [marshal_cst wf] in *. rewrite zlen_cons, zlen_enc in *.
+    cbn [rd_cst]. change (T_INT :: le_enc 8 z) with (le_enc 1 T_INT ++ le_enc 8 z).
+    rewrite <- app_assoc. change 1 with (Z.of_nat 1) at 1.
+    rewrite rd_fixed_enc by (eapply enough_le; [exact Hb|lia]).
+    change (T_INT mod 256 ^ Z.of_nat 1) with 1. cbv iota beta. change (1 =? T_INT) with true. cbv iota.
+    change 8 with (Z.of_nat 8) at 1.
+    rewrite rd_fixed_enc by (apply enough_after; [exact Hb|lia|lia]).
+    rewrite after_after by (auto; lia).
+    change (256 ^ Z.of_nat 8) with (2 ^ 64). rewrite signed_unsigned; [reflexivity|lia|].
+    change (2 ^ (64 - 1)) with two63. exact Hwf.
+  - (* KFlt *)
+    cbn [marshal_cst wf] in *. rewrite zlen_cons, zlen_enc in *.
+    cbn [rd_cst]. change (T_FLOAT :: le_enc 8 bits) with (le_enc 1 T_FLOAT ++ le_enc 8 bits).
+    rewrite <- app_assoc. change 1 with (Z.of_nat 1) at 1.
+    rewrite rd_fixed_enc by (eapply enough_le; [exact Hb|lia]).
+    change (T_FLOAT mod 256 ^ Z.of_nat 1) with 2. cbv iota beta.
+    change (2 =? T_INT) with false. change (2 =? T_FLOAT) with true. cbv iota.
+    change 8 with (Z.of_nat 8) at 1.
+    rewrite rd_fixed_enc by (apply enough_after; [exact Hb|lia|lia]).
+    rewrite after_after by (auto; lia).
+    change (256 ^ Z.of_nat 8) with two64. rewrite Z.mod_small by exact Hwf. reflexivity.
+  - (* KStr *)
+    cbn [marshal_cst wf] in *. rewrite zlen_cons, wstr_len in *.
+    pose proof (zlen_nonneg s).
+    cbn [rd_cst]. change (T_STRING :: wstr s) with (le_enc 1 T_STRING ++ wstr s).
+    rewrite <- app_assoc. change 1 with (Z.of_nat 1) at 1.
+    rewrite rd_fixed_enc by (eapply enough_le; [exact Hb|lia]).
+    change (T_STRING mod 256 ^ Z.of_nat 1) with 4. cbv iota beta.
+    change (4 =? T_INT) with false. change (4 =? T_FLOAT) with false. change (4 =? T_STRING) with true. cbv iota.
+    rewrite rd_str_enc; [|exact Hwf|apply enough_after; [exact Hb|lia|lia]].
+    rewrite after_after by (auto; lia). reflexivity.
+  - (* KCode *)
+    cbn [wf] in Hwf. destruct Hwf as (Hh & Hnk & Hks). rewrite wf_all in Hks.
+    destruct Hh. cbn [depth] in Hfuel.
+    pose proof maxAlloc_lt as HM. unfold two63 in HM.
+    pose proof (zlen_nonneg (source h)). pose proof (zlen_nonneg (name h)).
+    pose proof (zlen_nonneg (ops h)). pose proof (zlen_nonneg (lines h)).
+    pose proof (zlen_nonneg ks). pose proof (zlen_nonneg (upnames h)).
+    unfold SZ_OP, SZ_LINE, SZ_VALUE, SZ_STRING in *.
+    (* sizes *)
+    set (cks := zlen (flat_map marshal_cst ks)) in *.
+    set (cup := zlen (flat_map wstr (upnames h))) in *.
+    assert (Hcks : 0 <= cks) by apply zlen_nonneg.
+    assert (Hcup : 0 <= cup) by apply zlen_nonneg.
+    assert (Hcost : zlen (marshal_cst (KCode h ks)) =
+              1 + (8 + zlen (source h)) + (8 + zlen (name h)) + 8 + 4 * zlen (ops h) + 8 + 4 * zlen (lines h) + 8
+              + cks + 14 + cup).
+    { cbn [marshal_cst]. unfold marshal_head1, marshal_head2.
+      rewrite zlen_cons. repeat rewrite zlen_app. repeat rewrite wstr_len. repeat rewrite zlen_enc.
+      repeat rewrite flat_map_len4. fold cks. fold cup. lia. }
+    rewrite Hcost in *. clear Hcost.
+    cbn [marshal_cst rd_cst]. unfold marshal_head1, marshal_head2.
+    change (T_CODE :: ?x) with (le_enc 1 T_CODE ++ x).
+    repeat rewrite <- app_assoc.
+    change 1 with (Z.of_nat 1) at 1.
+    rewrite rd_fixed_enc by (eapply enough_le; [exact Hb|lia]).
+    change (T_CODE mod 256 ^ Z.of_nat 1) with 5. cbv iota beta.
+    change (5 =? T_INT) with false. change (5 =? T_FLOAT) with false.
+    change (5 =? T_STRING) with false. change (5 =? T_CODE) with true. cbv iota.
+    change (Z.of_nat 1) with 1.
+    unfold rd_code.
+    (* header *)
+    rewrite consume_ok by (bud Hb).
+    rewrite after_after by (try lia; bud Hb).
+    rewrite rd_str_enc; [|assumption|bud Hb].
+    rewrite after_after by (try lia; bud Hb).
+    rewrite rd_str_enc; [|assumption|bud Hb].
+    rewrite after_after by (try lia; bud Hb).
+    rewrite rd_raw8_enc. rewrite len64 by (unfold two63; lia).
+    unfold SZ_OP. rewrite mk_ok by lia.
+    unfold u64. rewrite (Z.mod_small (zlen (ops h))) by (unfold two64; lia).
+    rewrite Z.mod_small by (unfold two64; lia).
+    rewrite consume_ok by (bud Hb).
+    rewrite after_after by (try lia; bud Hb).
+    rewrite readfull_app by (rewrite flat_map_len4; lia).
+    rewrite rd_raw8_enc. rewrite len64 by (unfold two63; lia).
+    unfold SZ_LINE. rewrite mk_ok by lia.
+    rewrite (Z.mod_small (zlen (lines h))) by (unfold two64; lia).
+    rewrite Z.mod_small by (unfold two64; lia).
+    rewrite consume_ok by (bud Hb).
+    rewrite after_after by (try lia; bud Hb).
+    rewrite readfull_app by (rewrite flat_map_len4; lia).
+    rewrite rd_raw8_enc. rewrite len64 by (unfold two63; lia).
+    unfold SZ_VALUE. rewrite mk_ok by lia.
+    unfold zlen at 1. rewrite Nat2Z.id.
+    (* constants *)
+    rewrite (rd_many_enc (rd_cst lim f) marshal_cst (fun k => zlen (marshal_cst k))).
+    2:{ intros k Hk. split; [apply zlen_nonneg|]. intros r b' Hb'.
+        apply IH; [exact Hk|apply Hks; exact Hk| |exact Hb'].
+        pose proof (depth_in k ks Hk). lia. }
+    2:{ rewrite <- zlen_flat_map. fold cks. bud Hb. }
+    rewrite <- zlen_flat_map. fold cks.
+    rewrite after_after by (try lia; bud Hb).
+    (* tail *)
+    rewrite consume_ok by (bud Hb).
+    rewrite after_after by (try lia; bud Hb).
+    rewrite rd_raw2_enc.
+    rewrite rd_raw2_enc.
+    rewrite rd_raw2_enc.
+    rewrite rd_raw8_enc. rewrite len64 by (unfold two63; lia).
+    unfold SZ_STRING. rewrite mk_ok by lia.
+    unfold zlen at 1. rewrite Nat2Z.id.
+    rewrite rd_strs_enc; [|assumption|fold cup; bud Hb].
+    fold cup.
+    rewrite after_after by (try lia; bud Hb).
+    rewrite chunks4_enc, map_mod_u32 by assumption.
+    rewrite chunks4_enc, map_signed_i32 by assumption.
+    change (256 ^ Z.of_nat 2) with (2 ^ 16).
+    rewrite !signed_unsigned by (try lia; assumption).
+    destruct h as [a1 a2 a3 a4 a5 a6 a7 a8]; cbn [source name ops lines upvalueCount regCount cellCount upnames].
+    f_equal. f_equal. lia.
+Qed.
+
+End RoundTrip.
+
+(* ------------------------------------------------------------------ *)
+(* top level                                                            *)
+
+Lemma depth_le_len k : (depth k <= length (marshal_cst k))%nat.
+Proof.
+  induction k as [z|bits|s|h ks IH] using cst_ind'; cbn [depth marshal_cst length]; try lia.
+  rewrite !app_length.
+  assert (fold_right (fun k n => Nat.max (depth k) n) O ks <= length (flat_map marshal_cst ks))%nat.
+  { induction ks as [|x ks IHks]; cbn [fold_right flat_map]; [lia|].
+    rewrite app_length.
+    assert (depth x <= length (marshal_cst x))%nat by (apply IH; now left).
+    assert (fold_right (fun k n => Nat.max (depth k) n) 0%nat ks <= length (flat_map marshal_cst ks))%nat
+      by (apply IHks; intros; apply IH; now right).
+    lia. }
+  lia.
+Qed.
+
+Theorem unmarshal_marshal : forall lim k rest b,
+  0 <= lim <= maxAlloc -> wf lim k -> enough b (cost k) ->
+  unmarshal lim b (marshal k ++ rest) = UOk k rest (after b (cost k)).
+Proof.
+  intros lim k rest b Hl Hwf Hb. unfold marshal, marshalPrefix, unmarshal. cbn [app].
+  apply rd_cst_marshal; auto.
+  pose proof (depth_le_len k). rewrite app_length. lia.
+Qed.
+
+Corollary unmarshal_marshal_unlimited : forall lim k rest,
+  0 <= lim <= maxAlloc -> wf lim k -> unmarshal lim 0 (marshal k ++ rest) = UOk k rest 0.
+Proof. intros. rewrite unmarshal_marshal by (auto; now left). reflexivity. Qed.
+
+Theorem marshal_injective : forall lim k1 k2,
+  0 <= lim <= maxAlloc -> wf lim k1 -> wf lim k2 -> marshal k1 = marshal k2 -> k1 = k2.
+Proof.
+  intros lim k1 k2 Hl H1 H2 E.
+  pose proof (unmarshal_marshal_unlimited lim k1 [] Hl H1) as U1.
+  pose proof (unmarshal_marshal_unlimited lim k2 [] Hl H2) as U2.
+  rewrite E in U1. rewrite U1 in U2. now inversion U2.
+Qed.
+
+(* prefix-freeness: what follows a marshalled constant does not matter *)
+Theorem marshal_prefix_free : forall lim k1 k2 r1 r2,
+  0 <= lim <= maxAlloc -> wf lim k1 -> wf lim k2 -> marshal k1 ++ r1 = marshal k2 ++ r2 -> k1 = k2 /\ r1 = r2.
+Proof.
+  intros lim k1 k2 r1 r2 Hl H1 H2 E.
+  pose proof (unmarshal_marshal_unlimited lim k1 r1 Hl H1) as U1.
+  pose proof (unmarshal_marshal_unlimited lim k2 r2 Hl H2) as U2.
+  rewrite E in U1. rewrite U1 in U2. now inversion U2.
+Qed.
+
+(* load(string-with-a-dump) gives back the code, with UpvalueCount cells *)
+Theorem load_marshal : forall lim h ks,
+  0 <= lim <= maxAlloc -> wf lim (KCode h ks) -> 0 <= upvalueCount h ->
+  load_binary lim 0 (marshal (KCode h ks)) = LFun (KCode h ks) (upvalueCount h).
+Proof.
+  intros lim h ks Hl Hwf Hu. unfold load_binary, go_unmarshal.
+  rewrite <- (app_nil_r (marshal (KCode h ks))).
+  rewrite unmarshal_marshal_unlimited by auto.
+  destruct (upvalueCount h <? 0) eqn:E; [lia|reflexivity].
+Qed.
+
+(* The hypotheses are satisfiable: a code with a nested code, every constant type. *)
+Definition ex_head : chead := mkHead [99; 0; 255] [102] [1610678273; 1644232704] [1; -1] 1 3 0 [[95; 69; 78; 86]].
+Definition ex_code : cst :=
+  KCode ex_head [KInt (-5); KFlt 9218868437227405312; KStr [0; 1; 2]; KCode ex_head [KInt (two63 - 1)]].
+Example ex_code_wf : wf 1048576 ex_code.
+Proof.
+  assert (W : wf_head 1048576 ex_head).
+  { constructor; cbn; repeat constructor; unfold u32_ok, i32_ok, i16_ok, zlen; cbn; lia. }
+  cbn [wf ex_code]. repeat split; try exact W; unfold zlen, two63, two64, SZ_VALUE; cbn; try lia; try discriminate; try reflexivity;
+    repeat constructor; unfold u32_ok, i32_ok, zlen; cbn; lia.
+Qed.
+Example ex_code_roundtrip : unmarshal 1048576 0 (marshal ex_code ++ [7; 7]) = UOk ex_code [7; 7] 0.
+Proof. vm_compute. reflexivity. Qed.
+
+(* ------------------------------------------------------------------ *)
+(* what the decoder does on hostile input: refutations                  *)
+
+(* 28 bytes: prefix, a code with empty source and name and 2^40 opcodes *)
+Definition crash_witness : bytes := [6; 0; 4; 5] ++ repeat 0 16 ++ le_enc 8 (2 ^ 40).
+
+(* "UnmarshalConst never takes the process down" is false: with 4 GiB available to one
+   allocation the 28-byte stream requests 4 TiB before anything is checked, budget or not. *)
+Theorem unmarshal_total_no_panic_refuted :
+  exists inp, length inp = 28%nat /\
+    go_unmarshal (2 ^ 32) 0 inp = GCrash (2 ^ 42) /\
+    go_unmarshal (2 ^ 32) 1000 inp = GCrash (2 ^ 42) /\
+    load_binary (2 ^ 32) 1000 inp = LCrash (2 ^ 42).
+Proof. exists crash_witness. vm_compute. repeat split. Qed.
+
+(* a negative length is a Go run-time panic that the blanket recover() turns into "nil, no error" *)
+Theorem unmarshal_swallows_panic :
+  exists inp, go_unmarshal (2 ^ 32) 0 inp = GNil 0.
+Proof. exists ([6; 0; 4; 4] ++ le_enc 8 (-5)). vm_compute. reflexivity. Qed.
+
+(* 58 bytes that decode to a code with UpvalueCount = -1: load() panics in NewClosure *)
+Definition upvalue_witness : bytes := [6; 0; 4; 5] ++ repeat 0 40 ++ [255; 255; 0; 0; 0; 0] ++ repeat 0 8.
+Theorem load_no_panic_refuted :
+  exists inp, length inp = 58%nat /\ load_binary (2 ^ 32) 0 inp = LPanic.
+Proof. exists upvalue_witness. vm_compute. split; reflexivity. Qed.
